@@ -31,13 +31,16 @@ use dropshot::Path;
 use dropshot::Query;
 use dropshot::RequestContext;
 use dropshot::UntypedBody;
-use dsharness::server::{connect, start_server, RawResponse, RespReader, ServerOpts};
+use dropshot::ConfigDropshot;
+use dropshot::ConfigTls;
+use dropshot::ServerBuilder;
+use dsharness::server::{connect, RawResponse, RespReader};
 use schemars::JsonSchema;
 use serde::Deserialize;
 use std::collections::HashMap;
 use std::io::Write;
 use std::net::{SocketAddr, TcpStream};
-use std::sync::atomic::{AtomicBool, Ordering};
+use std::sync::atomic::{AtomicBool, AtomicUsize, Ordering};
 use std::sync::{Arc, Mutex};
 use std::time::{Duration, Instant};
 use tokio::sync::Semaphore;
@@ -101,6 +104,10 @@ struct Gates {
 pub struct Ctx {
     /// identifies this scenario's server (GET /id)
     pub id: u64,
+    /// number of "request handling cancelled (client disconnected)" records the
+    /// server has logged: the observable sign that hyper noticed a departed
+    /// client and dropped the service future (server.rs 798-818)
+    pub noticed: Arc<AtomicUsize>,
     log: Mutex<Vec<Ev>>,
     gates: Mutex<Gates>,
     pub frozen: AtomicBool,
@@ -114,6 +121,7 @@ impl Ctx {
         let id = ((std::process::id() as u64) << 32) | NEXT.fetch_add(1, Ordering::SeqCst);
         Arc::new(Ctx {
             id,
+            noticed: Arc::new(AtomicUsize::new(0)),
             log: Mutex::new(Vec::new()),
             gates: Mutex::new(Gates { open_all: false, map: HashMap::new() }),
             frozen: AtomicBool::new(false),
@@ -245,6 +253,19 @@ async fn h_wait(
     wait_common(rqctx.context(), p.into_inner().r, q.into_inner().big.unwrap_or(0)).await
 }
 
+/// GET /wd/{r}: like /w/{r}, but the handler moves what it needs out of the
+/// RequestContext and drops it BEFORE waiting at its gate.
+#[endpoint { method = GET, path = "/wd/{r}" }]
+async fn h_wait_dropctx(
+    rqctx: RequestContext<Arc<Ctx>>,
+    p: Path<ReqPath>,
+) -> Result<http::Response<Body>, HttpError> {
+    let ctx: Arc<Ctx> = rqctx.context().clone();
+    let r = p.into_inner().r;
+    std::mem::drop(rqctx);
+    wait_common(&ctx, r, 0).await
+}
+
 /// POST /wb/{r}: the body is consumed by the extractor before the handler starts.
 #[endpoint { method = POST, path = "/wb/{r}" }]
 async fn h_wait_body(
@@ -331,6 +352,7 @@ pub fn api() -> ApiDescription<Arc<Ctx>> {
     let mut api = ApiDescription::new();
     api.register(h_wait).unwrap();
     api.register(h_wait_body).unwrap();
+    api.register(h_wait_dropctx).unwrap();
     api.register(h_wait_nobody).unwrap();
     api.register(h_panic).unwrap();
     api.register(h_health).unwrap();
@@ -366,26 +388,49 @@ pub fn mode_name(m: HandlerTaskMode) -> &'static str {
     }
 }
 
+/// slog drain that only counts the server's "client disconnected" records.
+struct NoticeDrain(Arc<AtomicUsize>);
+
+impl slog::Drain for NoticeDrain {
+    type Ok = ();
+    type Err = slog::Never;
+    fn log(&self, record: &slog::Record, _values: &slog::OwnedKVList) -> Result<(), slog::Never> {
+        if format!("{}", record.msg()).starts_with("request handling cancelled") {
+            self.0.fetch_add(1, Ordering::SeqCst);
+        }
+        Ok(())
+    }
+}
+
 pub fn start(rt: &tokio::runtime::Runtime, ctx: &Arc<Ctx>, mode: HandlerTaskMode) -> HttpServer<Arc<Ctx>> {
+    start_opts(rt, ctx, mode, None)
+}
+
+/// Start a server for this scenario (plain, or HTTPS when `tls` is given).
+pub fn start_opts(
+    rt: &tokio::runtime::Runtime,
+    ctx: &Arc<Ctx>,
+    mode: HandlerTaskMode,
+    tls: Option<ConfigTls>,
+) -> HttpServer<Arc<Ctx>> {
     let _g = rt.enter();
     // bind(127.0.0.1:0) can fail transiently when the ephemeral port range is
     // crowded (many sockets in TIME_WAIT from earlier runs): retry.
     let mut tries = 0;
     loop {
-        let c = ctx.clone();
-        let r = std::panic::catch_unwind(std::panic::AssertUnwindSafe(move || {
-            start_server(
-                api(),
-                c,
-                ServerOpts { default_request_body_max_bytes: 1024, mode, version_policy: None },
-            )
-        }));
-        match r {
+        let log = slog::Logger::root(NoticeDrain(ctx.noticed.clone()), slog::o!());
+        let config = ConfigDropshot {
+            bind_address: "127.0.0.1:0".parse().unwrap(),
+            default_request_body_max_bytes: 1024,
+            default_handler_task_mode: mode,
+            log_headers: vec![],
+        };
+        match ServerBuilder::new(api(), ctx.clone(), log).config(config).tls(tls.clone()).start() {
             Ok(s) => return s,
             Err(e) => {
                 tries += 1;
                 if tries > 100 {
-                    std::panic::resume_unwind(e);
+                    panic!("server starts: {:?}", e);
                 }
                 std::thread::sleep(Duration::from_millis(100));
             }
